@@ -111,6 +111,20 @@ def run(tier, seed, replay=None):
             chk.violation(sig, 'capacity %d: estimate for oom_score_adj %d is %d which maps to %d' % (c, bad[0], r['table'][bad[0] - 1], r['back'][bad[0] - 1]), {'capacity': c, 'adj': bad[0]})
         else:
             ncap_ok += 1
+        # the lookup a container's request is estimated with: every Burstable adjustment has an estimate,
+        # suppressed only by a real (non-zero) memory limit not above it; nothing outside [3, 999]
+        probes = [(a, lim) for a in (-997, 0, 1, 2, 3, 4, 500, 998, 999, 1000, 1001) for lim in (0, 1, c // 2, c, c + 1)]
+        for (a, lim), got in zip(probes, r.get('lookup') or []):
+            if a < 3 or a > 999:
+                want = -1
+            else:
+                est = r['table'][a - 1]
+                want = est if (lim == 0 or est < lim) else -1
+            if got != want:
+                chk.violation('oom-lookup-wrong' if c <= LIM else 'capacity>2^63/1000',
+                              'capacity %d: OomAdjToMemReq(%d, limit %d) = %s, expected %s (table entry %s)' % (c, a, lim, 'nil' if got < 0 else got, 'nil' if want < 0 else want, r['table'][a - 1] if 1 <= a <= 999 else '-'),
+                              {'capacity': c, 'adj': a, 'limit': lim})
+                break
 
     # ---------------- correspondence: the model evaluated by the kernel on the same inputs
     files = []
